@@ -9,7 +9,7 @@ COQ_CASE_TYPE = "case"
 COQ_AGREE = "agree"
 COQ_PROP_OK = "prop_ok"
 RULE = ("seeded random trees built from the public classes: agents nested up to depth 4 (fan-out <= 3), environments from leaf / ModularEnvironment (also via from_dict) / "
-        "EnvironmentWrapper, sensors and actuators from leaves / dictionaries / wrappers (wrapper objects or plain functions) up to depth 4, an action value shaped like the actuator tree; "
+        "EnvironmentWrapper, sensors and actuators from leaves / dictionaries / wrappers (wrapper objects or plain functions) up to depth 4, an action value shaped like the actuator tree; in 30% of the trees distinct components of one class compare equal and hash alike (value-like objects); "
         "all eight root events are issued. Non-trivial = depth >= 3 somewhere and at least one dictionary and one wrapper; distinct = canonical JSON.")
 TRUSTED = [
     "Coq 8.16.1 kernel incl. vm_compute",
@@ -99,6 +99,7 @@ def gen_one(rng):
     ag = g.agent(1)
     en = g.env(1)
     return {"agent": ag, "env": en, "action": action_for(en, g), "fixed_root": rng.random() < 0.4,
+            "eq_all": rng.random() < 0.3,     # components of one class compare equal and hash alike (value-like objects); still distinct components
             "meta": {"depth": g.depth, "dict": g.has_dict, "wrap": g.has_wrap, "n": g.n}}
 
 
